@@ -516,8 +516,13 @@ impl Rasn {
                 _ => TokenStream::new(),
             }
         } else {
+            // a constrained type reference may be an INTEGER type: its value range is signed
+            // (as it is for a type assignment `T ::= Ref (lo..hi)`)
             self.format_range_annotations(
-                matches!(member.ty(), ASN1Type::Integer(_)),
+                matches!(
+                    member.ty(),
+                    ASN1Type::Integer(_) | ASN1Type::ElsewhereDeclaredType(_)
+                ),
                 &all_constraints,
             )?
         };
